@@ -1,10 +1,10 @@
 SPECIFICATION MCSpec
 CONSTANTS
   W = 8
-  Lens = {0,1,2,3,4,5,6}
+  Lens = {0,1,2,3,4,5,6,7,8,9,10,11,12,13}
   ZstLens = {0,1,3,127,128,200,255}
   Sizes = {1,2,8}
-  Ns = {1,2,3,4}
+  Ns = {1,2,3,4,5,6,7,8,10,12}
   PairIdx = {0,1,2,3,4,5,6,7,8,9,125,126,127,128,129,130,250,251,252,253,254,255}
 INVARIANTS UnsafePre Refines SplitDisjoint
 POSTCONDITION Emit
